@@ -304,7 +304,8 @@ func (r *schemaLoader) setSchemaID(target interface{}, id, basePath string) (str
 	newBasePath := normalizeURI(refPath, basePath)
 
 	// store found IDs for possible future reuse in $ref
-	r.cache.Set(newBasePath, target)
+	// cache a private copy: the caller keeps mutating target while expanding it
+	r.cache.Set(newBasePath, swag.ToDynamicJSON(target))
 
 	// the root document has an ID: all $ref relative to that ID may
 	// be rebased relative to the root document
